@@ -248,7 +248,11 @@ def gen_stream_fault(rng, raw, kinds):
         if not w['ids']:
             return None
         tops = bufrgen.top_level_positions(w['ids'])
-        if tops and rng.random() < 0.7:
+        in221 = [p + 1 + j for p, x in enumerate(w['ids']) if 221000 < x <= 221255
+                 for j in range(x % 1000) if p + 1 + j < len(w['ids'])]
+        if in221 and rng.random() < 0.5:
+            pos = rng.choice(in221)     # inside the scope of 'data not present': still an undefined descriptor
+        elif tops and rng.random() < 0.7:
             pos = rng.choice(tops)
         else:
             pos = rng.randrange(len(w['ids']))
@@ -317,6 +321,17 @@ def no_defs(e):
     return 'D' not in e['cls']
 
 
+_HAS_221 = {}
+
+
+def _has_221(e):
+    k = e['ref']
+    if k not in _HAS_221:
+        w = bufrgen.walk(bytes.fromhex(e['hex']))
+        _HAS_221[k] = bool(w) and any(221000 < i <= 221255 for i in w['ids'])
+    return _HAS_221[k]
+
+
 def gen_plan(family, seed, pool, tier='quick'):
     rng = random.Random(seed)
     for attempt in range(50):
@@ -370,6 +385,8 @@ def _gen_plan(family, rng, pool, tier):
         knobs = {'mode': mode, 'coe': rng.random() < 0.5, 'front': front,
                  'compiled': rng.choice([None, None, 2, 0]) if front in ('api', 'cli-decode') else None,
                  'filter': flt}
+        if front == 'api' and rng.random() < 0.25:
+            knobs['wire'] = False       # no hierarchical structure is built (what decode -m does)
         return {'knobs': knobs, 'items': items, 'seps': seps}
 
     if family == 'c11-big':
@@ -414,7 +431,25 @@ def _gen_plan(family, rng, pool, tier):
             # the messages before it are intact in most streams, damaged as usual in the others
             p_dmg = rng.choice([0.0, 0.0, 0.0, 0.2, 0.5])
         items = []
+        # templates with 'data not present' (221YYY): an undefined descriptor inside its scope is still an
+        # undefined descriptor. Such templates are rare in the pool; one stream in ten gets one on purpose
+        dnp = [e for e in pool if small(e) and (e.get('opkind') or '').startswith('plain-ops') and
+               _has_221(e) and bytes.fromhex(e['hex']).find(b'BUFR', 1) < 0]
+        if dnp and not eof and rng.random() < 0.1:
+            e = rng.choice(dnp)
+            f = gen_stream_fault(rng, bytes.fromhex(e['hex']), ['undef_el', 'undef_el', 'undef_seq'])
+            if f is not None:
+                chosen = list(chosen)
+                chosen[rng.randrange(len(chosen))] = None
+                items_forced = _item(e, f)
+            else:
+                items_forced = None
+        else:
+            items_forced = None
         for e in chosen:
+            if e is None:
+                items.append(items_forced)
+                continue
             fault = None
             raw = bytes.fromhex(e['hex'])
             if rng.random() < p_dmg and raw.find(b'BUFR', 1) < 0:
@@ -472,6 +507,8 @@ def _gen_plan(family, rng, pool, tier):
             # the decoder is not new: it has decoded another (valid) message before, in one of the modes
             knobs['warm'] = {'how': rng.choice(['full', 'info', 'ive']),
                              'hex': rng.choice([x for x in pool if small(x)])['hex']}
+        if front == 'api' and rng.random() < 0.3:
+            knobs['wire'] = False       # no hierarchical structure is built (what decode -m does)
         return {'knobs': knobs, 'items': items, 'seps': seps}
 
     if family == 'c12-enum':
@@ -480,6 +517,9 @@ def _gen_plan(family, rng, pool, tier):
         # sequence}; each section x each length delta; stop-signature variants), one scan per fault
         tiny = lambda e: small(e) and e['adm']['full']['n'] <= 1500 and 'B' not in e['cls']
         a, b = _pick(rng, pool, 2, tiny)
+        dnp = [e for e in pool if tiny(e) and (e.get('opkind') or '').startswith('plain-ops') and _has_221(e)]
+        if dnp and rng.random() < 0.15:
+            a = rng.choice(dnp)
         raw = bytes.fromhex(a['hex'])
         w = bufrgen.walk(raw)
         faults = [{'kind': 'stopsig', 'bytes': x} for x in ('37373738', '00000000', '37373700', '37377b37', '7b7d3737',
@@ -507,9 +547,10 @@ def _gen_plan(family, rng, pool, tier):
                 faults.append({'kind': 'len', 'section': sec, 'delta': len(seps[ia + 1]) // 2 + len(b['hex']) // 2})
         faults = [f for f in faults if bufrgen.apply_fault(raw, f) != raw and
                   bufrgen.apply_fault(raw, f).find(b'BUFR', 1) < 0]
-        return {'knobs': {'mode': mode, 'coe': rng.random() < 0.85, 'front': front,
-                          'compiled': None, 'filter': None, 'order': order},
-                'items': [_item(a), _item(b)], 'faults': faults, 'seps': seps}
+        kn = {'mode': mode, 'coe': rng.random() < 0.85, 'front': front, 'compiled': None, 'filter': None, 'order': order}
+        if front == 'api' and rng.random() < 0.4:
+            kn['wire'] = False
+        return {'knobs': kn, 'items': [_item(a), _item(b)], 'faults': faults, 'seps': seps}
 
     if family == 'c12-trunc':
         lim = 1000 if tier == 'quick' else 6000
@@ -623,9 +664,17 @@ def gen_md_exprs(rng):
             out.append('%%%d.%s' % (rng.choice([0, 1, 2, 3, 4, 5, 6, 9, 10, 77, 255, 1000]), name))
         elif r < 0.90:
             out.append(' %' + name + ' ')
-        else:
+        elif r < 0.95:
             out.append(rng.choice([name, '$' + name, '%x.' + name, '%1a.' + name, '%-.' + name, '', '   ',
                                    '1.' + name, '%.' + name]))
+        else:
+            # odd forms: more than one dot, signed indices, characters that some notion of 'digit' accepts
+            # and int() may not. Where every reading gives a non-numeric index the parsing error is
+            # demanded; for the others only that nothing but an answer or the parsing error comes back
+            out.append(rng.choice(['%1.2.' + name, '%..' + name, '%a.b.' + name, '%3.' + name + '.x', '%x.1.' + name,
+                                   '%-1.' + name, '%+1.' + name, '%1_0.' + name, u'%\u00b2.' + name,
+                                   u'%\u2460.' + name, u'%\u0661.' + name, u'%\u1369.' + name, '%1.', '%.',
+                                   '% 1.' + name, '%1 .' + name, '%0x1.' + name, '%1e0.' + name, '%1.0.' + name]))
     return out
 
 
@@ -767,7 +816,8 @@ def exec_stream(plan):
         try:
             for m in generate_bufr_message(dec, stream, info_only=(kn['mode'] == 'info'),
                                            continue_on_error=kn['coe'],
-                                           filter_expr=kn['filter']['expr'] if kn.get('filter') else None):
+                                           filter_expr=kn['filter']['expr'] if kn.get('filter') else None,
+                                           **({} if kn.get('wire', True) else {'wire_template_data': False})):
                 full = kn['mode'] == 'full' and hasattr(m, 'template_data')
                 d = digest_message(m, full)
                 d['p'] = _h(json.dumps(section_params(m, 3)).encode())
@@ -1273,6 +1323,11 @@ def oracle(plan, tr):
                 exp = md_expected(ex, r['sections'])
                 if exp[0] == 'skip':
                     continue
+                if exp[0] == 'any':
+                    if st == 'err' and val['type'] != 'MetadataExprParsingError':
+                        out.append({'property': 'C17', 'clause': 'C17.b-foreign-exception', 'expr_class': 'odd',
+                                    'got': val['type'], 'position': min(k, 1)})
+                    continue
                 if exp[0] == 'err':
                     if st != 'err' or val['type'] != 'MetadataExprParsingError':
                         out.append({'property': 'C17', 'clause': 'C17.b-reject', 'expr_class': expr_class(ex),
@@ -1322,6 +1377,11 @@ def oracle_c17(plan, tr):
         exp = md_expected(ex, secs)
         if exp[0] == 'skip':
             continue
+        if exp[0] == 'any':
+            if st == 'err' and val['type'] != 'MetadataExprParsingError':
+                out.append({'property': 'C17', 'clause': 'C17.b-foreign-exception', 'expr_class': 'odd',
+                            'got': val['type']})
+            continue
         if exp[0] == 'err':
             if st != 'err' or val['type'] != 'MetadataExprParsingError':
                 out.append({'property': 'C17', 'clause': 'C17.b-reject', 'expr_class': expr_class(ex),
@@ -1342,6 +1402,11 @@ def oracle_c17(plan, tr):
         exp = md_expected(ex, tr['fsections'])
         if exp[0] == 'skip':
             continue
+        if exp[0] == 'any':
+            if st == 'err' and val['type'] != 'MetadataExprParsingError':
+                out.append({'property': 'C17', 'clause': 'C17.b-foreign-exception', 'expr_class': 'odd',
+                            'got': val['type'], 'how': 'full'})
+            continue
         if exp[0] == 'err':
             if st != 'err' or val['type'] != 'MetadataExprParsingError':
                 out.append({'property': 'C17', 'clause': 'C17.b-reject', 'expr_class': expr_class(ex),
@@ -1352,7 +1417,7 @@ def oracle_c17(plan, tr):
     if not out:
         for ex, front, val, err, exc in tr.get('cli', []):
             exp = md_expected(ex, secs)
-            if exp[0] == 'skip':
+            if exp[0] in ('skip', 'any'):
                 continue
             # which message object a command builds (metadata-only or fully decoded) is its own business:
             # only lookups whose answer is the same for both are compared (sections 0-3)
@@ -1401,12 +1466,24 @@ def expr_class(ex):
     if s[0] != '%':
         return 'no-percent'
     if '.' in s:
-        idx = s[1:].split('.')[0]
-        try:
-            int(idx)
-            return 'indexed'
-        except ValueError:
-            return 'bad-index'
+        def plain(x):
+            return x.isascii() and x.isdigit()
+
+        def junk(x):        # pure ASCII that int() refuses: non-numeric under every reading
+            if not x.isascii():
+                return False
+            try:
+                int(x)
+                return False
+            except ValueError:
+                return True
+        body = s[1:]
+        first, upto_last = body.split('.')[0], body.rsplit('.', 1)[0]
+        if body.count('.') == 1:
+            if plain(first):
+                return 'indexed'
+            return 'bad-index' if junk(first) else 'odd'
+        return 'bad-index' if (junk(first) and junk(upto_last)) else 'odd'
     return 'bare'
 
 
@@ -1416,6 +1493,8 @@ def md_expected(ex, secs):
     c = expr_class(ex)
     if c in ('blank', 'no-percent', 'bad-index'):
         return ('err', None)
+    if c == 'odd':
+        return ('any', None)
     if c == 'indexed':
         a, name = s[1:].split('.', 1)
         if '.' in name:
